@@ -526,6 +526,17 @@ class C03(BtProp):
             if interrupted_later(sh, o, q):
                 continue
             stop_at = start + len(mine) - 1
+            # a child that returned SUCCESS in this pass keeps it: stopping at a later child does not touch what came before
+            for c in mine:
+                if st_of(o, q) == "I" and not (Y.get(q) == "I" and (sh.parent.get(q) is None
+                                                                  or sh.kind(sh.parent[q]) in ("Q", "S"))):
+                    # the sequence ended INVALID: interrupted, or it adopted an INVALID child under a decorator / parallel
+                    # parent, which then resets it. (Under a sequence / selector parent, or as the root, nothing resets it.)
+                    break
+                if Y.get(c) == "S" and st_of(o, c) != "S":
+                    out.append(viol("prefix-kept", "sequence %d: child %d returned SUCCESS in this tick but shows %s after it"
+                                    % (q, c, st_of(o, c))))
+                    break
             if fresh:
                 # fresh entry resets the whole subtree: whatever was not ticked in this pass shows INVALID, at any depth
                 ent_all = set(entered(o))
@@ -758,9 +769,27 @@ class C05(BtProp):
             s = bt_gen.Scenario("bt", "%s_%s_e%d" % (self.pid, tier[0], i), ["tree " + bt_impl.spec_str(spec)], ops,
                                 {"spec": spec, "must_raise_last": True})
             out.append(s)
+        # a selection naming a non-child is rejected at setup, whatever the number of children (also none)
+        for i in range(max(10, n // 2)):
+            k = rng.choice([0, 0, 1, 2, 3])
+            kids = [("L", 2 + j, ["probe"]) for j in range(k)]
+            sel = sorted(rng.sample(range(2, 2 + k), rng.randint(0, k))) + [90]      # 90 is nobody's child
+            if rng.random() < 0.3:
+                sel = []                                                            # empty selection: invalid too
+            spec = ("P", 1, "sel:%s:%s" % (rng.choice("01"), ",".join(map(str, sel))), kids)
+            if rng.random() < 0.5:
+                spec = ("Q", 50, False, [("L", 60, ["probe"]), spec])
+            s = bt_gen.Scenario("bt", "%s_%s_su%d" % (self.pid, tier[0], i), ["tree " + bt_impl.spec_str(spec)],
+                                ["setup"], {"spec": spec, "must_raise_setup": True})
+            out.append(s)
         return out
 
     def oracle(self, s, lines):
+        if s.meta.get("must_raise_setup"):
+            if not any(l.startswith("ERR RuntimeError") for l in lines):
+                return [viol("validate-at-setup", "a SuccessOnSelected selection that is empty or names a non-child was not "
+                             "rejected with RuntimeError at setup: %s" % [l for l in lines if not l.startswith("SPEC")][:3])]
+            return []
         if s.meta.get("must_raise_last"):
             obs = parse_obs(lines)
             last = obs[-1] if obs else None
@@ -844,7 +873,20 @@ class C09(BtProp):
                     out.append(viol("guard-closed", "EternalGuard %d condition false: child entered %d times, guard %s"
                                     % (d, n_child, Y.get(d))))
                 continue
-            if k in ("oneshot", "retry", "repeat", "cond", "timeout"):
+            if k == "oneshot":
+                # a OneShot that has not completed (child completion covered by its policy, never an interruption) ticks its
+                # child exactly once and mirrors it
+                latched = sh.__dict__.setdefault("_oneshot_done", {})
+                n_child = sum(1 for e in ent if e == c)
+                if d not in latched:
+                    if n_child != 1 or Y.get(d) != Y.get(c):
+                        out.append(viol("oneshot-open", "OneShot %d has not completed: child entered %d times, child %s, "
+                                        "oneshot %s" % (d, n_child, Y.get(c), Y.get(d))))
+                    both = str(sh.node[d][2]).split(":")[1] == "1"
+                    if Y.get(c) == "S" or (both and Y.get(c) == "F"):
+                        latched[d] = Y.get(c)
+                continue
+            if k in ("retry", "repeat", "cond", "timeout"):
                 continue
             n_child = sum(1 for e in ent if e == c)
             if n_child != 1:
